@@ -164,6 +164,21 @@ class Exec(ExprMixin, SpecMixin, Engine):
                 return [(s, mk_bool(False))]
             if c.kind == "cls" and c.x == "int":
                 return [(s, mk_bool(o.kind in ("int", "bool")))]
+        if name in ("type", "isinstance") and args and args[0].kind == "U":
+            # a state item: Python looks at whatever object is there.  A reference is looked at as
+            # such; a key or value has a class that is none of ours (class id -1)
+            from .sym import US
+            u = args[0].z
+            isref = z3.And(US.is_UR(u), US.ur(u) != 0)
+            cid = z3.If(isref, self.hget(s, "$cls", US.ur(u)), z3.IntVal(-1))
+            if name == "type":
+                return [(s, SV("cls", None, ("dyn", cid)))]
+            c = args[1]
+            if c.kind == "cls":
+                if isinstance(c.x, tuple):
+                    return [(s, mk_bool(z3.And(isref, cid == c.x[1])))]
+                subs = [k for k in CLASS_IDS if c.x in self.mro(k)]
+                return [(s, mk_bool(z3.And(isref, z3.Or(*[cid == CLASS_IDS[k] for k in subs]))))]
         if name == "type" and len(args) == 1 and args[0].kind == "ref":
             return [(s, SV("cls", None, ("dyn", self.cls_of(s, args[0]))))]
         if name == "bool":
@@ -173,6 +188,36 @@ class Exec(ExprMixin, SpecMixin, Engine):
             return [(s, mk_int(z3.If(a >= b, a, b) if name == "max" else z3.If(a <= b, a, b)))]
         if name == "next" and len(args) == 1 and args[0].kind == "ref":
             return self.iter_next(s, args[0])
+        if name == "reversed" and len(args) == 1 and args[0].kind == "list":
+            return [(s, SV("revview", args[0].z, args[0].x))]
+        if name == "list" and len(args) == 1 and args[0].kind == "revview":
+            # list(reversed(l)): a new list, item j is l[len - 1 - j]
+            a = args[0]
+            j = z3.Int("j!rev")
+            n = self.llen(s, a.z)
+            c = self.lcontent(s, a.z, a.x)
+            return [(s, self.new_list(s, a.x, self.mk_array(j, z3.Select(c, n - 1 - j), z3.K(INT, ELEM_DEFAULT[a.x])), n))]
+        if name == "iter" and len(args) == 1 and args[0].kind == "list":
+            # list iterator: the list plus a position held in a hidden local (havocked by loops that advance it)
+            n = sum(1 for k in s.env if k.startswith("$itpos")) + 1
+            pos = "$itpos%d" % n
+            s.env[pos] = mk_int(0)
+            return [(s, SV("listiter", args[0].z, (args[0].x, pos)))]
+        if name == "next" and len(args) == 1 and args[0].kind == "listiter":
+            it = args[0]
+            elem, pos = it.x
+            p = s.env[pos].z
+            s2 = s.copy()
+            s.assume(p < self.llen(s, it.z))
+            s2.assume(z3.Not(p < self.llen(s2, it.z)))
+            outs = []
+            if self.feasible(s):
+                v = SV(ELEM_KIND[elem], z3.Select(self.lcontent(s, it.z, elem), p))
+                s.env[pos] = mk_int(p + 1)
+                outs.append((s, v))
+            if self.feasible(s2):
+                outs.append((s2, exc("StopIteration")))
+            return outs
         if name == "tuple" and args and args[0].kind == "list":
             # tuple(seq): a new immutable sequence object with the same items
             a = args[0]
